@@ -6,15 +6,30 @@
   outermost database transaction of the handler), a schedule is any `List Nat` naming which request
   runs its next transaction (`Prog.runSched`).
 
-  * `generation_monotone_step`: no transaction of any request lowers a provider (or consumer)
-    generation or reuses an internal id;
+  * `generation_monotone_step` / `generation_monotone_sched`: no transaction of any request lowers a
+    provider (or consumer) generation or reuses an internal id;
   * `guarded_write_sees_generation` (one transaction) and `guarded_commit_sees_generation` (lifted to
     every schedule): a 2xx answer of PUT inventories / PUT inventory / PUT aggregates (>= 1.19)
     carrying generation `g` for provider `u` means: at the scheduling step of its write transaction
     the provider had generation `g`, and `g + 1` afterwards;
   * `at_most_one_success_same_generation`: of ANY number of such requests carrying the same `(u, g)`,
     under ANY schedule and whatever other requests (not creating/updating/deleting providers) are in
-    flight, at most one answers 2xx.
+    flight, at most one answers 2xx;
+  * `stale_generation_is_409_concurrent_update` (every schedule), `stale_write_is_rejected` (one
+    transaction): the losers answer 409 `placement.concurrent_update` and change nothing;
+  * `derived_generation_no_overwrite` (POST / DELETE inventory, DELETE inventories, DELETE traits; every
+    schedule) and `alloc_write_validated_at_commit` (allocation writes: server-side retry re-validates
+    capacity inside the write transaction);
+  * PUT traits (known finding F1: a PUT naming the traits the provider already has answers 200 without
+    the compare-and-swap): `C05_witness_noop_traits`, `traits_at_most_one_full_false` (the plain
+    statement is false), `at_most_one_effective_writer_same_generation` (what is true, PUT traits
+    included: all but at most one of the requests carrying `(u, g)` leave the state unchanged in every
+    step).
+
+  Not proved: POST /reshaper as a member of the set in `at_most_one_success_same_generation` (its main
+  transaction runs several compare-and-swaps per provider with locally tracked generations and the
+  retry of `replace_all`; needed: "success implies the provider's generation at the start of the
+  transaction was at most the one carried", see the report).
 -/
 import Placement.Lemmas.SchedRp2
 import Placement.Lemmas.SchedAlloc
